@@ -227,21 +227,20 @@ void ActionDiagnostic::clear()
  */
 void ActionDiagnostic::begin_run_impl(CoreParams const& params)
 {
+    // Every stream calls this at the start of its run: the check itself must
+    // be inside the lock (an unlocked first test races with the assignment)
+    static std::mutex initialize_mutex;
+    std::lock_guard<std::mutex> scoped_lock{initialize_mutex};
+
     if (!store_)
     {
-        static std::mutex initialize_mutex;
-        std::lock_guard<std::mutex> scoped_lock{initialize_mutex};
+        action_reg_ = params.action_reg();
+        particle_ = params.particle();
 
-        if (!store_)
-        {
-            action_reg_ = params.action_reg();
-            particle_ = params.particle();
-
-            HostVal<ParticleTallyParamsData> host_params;
-            host_params.num_bins = params.action_reg()->num_actions();
-            host_params.num_particles = params.particle()->size();
-            store_ = {std::move(host_params), params.max_streams()};
-        }
+        HostVal<ParticleTallyParamsData> host_params;
+        host_params.num_bins = params.action_reg()->num_actions();
+        host_params.num_particles = params.particle()->size();
+        store_ = {std::move(host_params), params.max_streams()};
     }
     CELER_ENSURE(store_);
 }
